@@ -65,6 +65,9 @@ class Bicomplex(object):
     zeta = z1 + j*z2, where z1 and z2 are complex numbers.
     """
     __slots__ = ('z1', 'z2')
+    # let numpy scalars and arrays on the left of a binary operator defer to the reflected methods
+    # instead of building object arrays of Bicomplex elements
+    __array_priority__ = 1000
 
     def __init__(self, z1, z2, dtype=np.complex128):
         z1, z2 = np.broadcast_arrays(z1, z2)
